@@ -200,11 +200,28 @@ def run_presence(ctx, rep, rule="PRESENCE"):
                     return n_.get("k") == "bin" and n_.get("op") == "&" and any(
                         isinstance(y, dict) and y.get("v") == mask for y in (n_.get("l"), n_.get("r")))
                 tests = []
+                falias = {}       # named bools: `const bool metadata_flag_set = (flags & MASK) != 0;`
+                for b_, ev_ in fn.events():
+                    if ev_["k"] == "decl" and "d" in (ev_.get("var") or {}) and isinstance(ev_.get("e"), dict) and \
+                            any(is_flag(x) for x in walk(ev_["e"])):
+                        t_, p_ = _strip_not(ev_["e"], True)
+                        while isinstance(t_, dict) and t_.get("k") in ("icast", "cast", "copy", "paren") and "v" not in t_:
+                            t_ = t_.get("e")
+                        if isinstance(t_, dict) and t_.get("k") == "bin" and t_.get("op") == "==":
+                            p_ = not p_
+                        falias[ev_["var"]["d"]] = p_
                 for b in fn.blocks.values():
                     if b.cond is None or len(b.succ) != 2 or b.labels is not None:
                         continue
                     tree, pos = _strip_not(b.cond, True)
-                    if isinstance(tree, dict) and any(is_flag(x) for x in walk(tree)):
+                    tv = tree
+                    while isinstance(tv, dict) and tv.get("k") in ("icast", "cast", "copy", "paren") and "v" not in tv:
+                        tv = tv.get("e")
+                    if isinstance(tv, dict) and tv.get("k") == "var" and tv.get("d") in falias:
+                        if not falias[tv["d"]]:
+                            pos = not pos
+                        tests.append((b.id, b.succ[0] if pos else b.succ[1], b.succ[1] if pos else b.succ[0]))
+                    elif isinstance(tree, dict) and any(is_flag(x) for x in walk(tree)):
                         if tree.get("k") == "bin" and tree.get("op") == "==":
                             pos = not pos
                         tests.append((b.id, b.succ[0] if pos else b.succ[1], b.succ[1] if pos else b.succ[0]))
@@ -223,7 +240,15 @@ def run_presence(ctx, rep, rule="PRESENCE"):
                         elif not all(fn.edge_dominates((tid, present), s_) for s_ in sites):
                             ok, why = False, "the read is not confined to the 'bit set' edge"
                         else:
-                            rp = fn.reachable(start=present, removed_blocks=sites)
+                            # a version gate between the flag test and the read is part of the format (legacy
+                            # streams carry no metadata): a path may skip the read only through such a gate
+                            vblocks = {vb.id for vb in fn.blocks.values() if vb.cond is not None and any(
+                                (x.get("k") == "call" and "version" in _short(x).lower()) or
+                                (x.get("k") in ("var", "field") and "version" in (x.get("n") or "").lower())
+                                for x in walk(vb.cond))}
+                            rp = fn.reachable(start=present, removed_blocks=sites | (vblocks - {present}))
+                            if present in vblocks:
+                                rp = set()
                             if rp & exits:
                                 ok, why = False, "a successful path leaves the 'bit set' edge without reading the block"
                             else:
